@@ -42,7 +42,7 @@ theorem C04_binning_complete_nodup (dist : Pos → Pos → α) (hsym : ∀ a b, 
   binnedSearch_spec dist hsym T hT shuf hshuf mf mi r st hinv prim sec hP hS cut hcut
 
 /-- **C04_pairs_spec** — `collocate(primary, secondary, max_interval, max_distance,
-start, end, …)` on non-empty datasets returns (never raises), keeps the object
+start, end, …)` returns (never raises; an empty dataset gives `None`), keeps the object
 invariant, and the collocations of the outcome, identified by the carried ids, are
 **exactly** `{(i, j) | both positions valid ∧ distance ≤ max_distance ∧ |tᵢ − tⱼ| <
 max_interval ∧ both times in [start, end]}` with `⌊|Δt|⌋` seconds and the pair's distance
@@ -52,7 +52,7 @@ machine, NaN filtering, sorting, compaction. -/
 theorem C04_pairs_spec (dist : Pos → Pos → α) (hsym : ∀ a b, dist a b = dist b a)
     (T : TreeFn Pos α) (hT : TreeOK dist T) (shuf : Nat → List Pos → List Nat)
     (hshuf : ValidShuf shuf) (tn : Tuning) (st : SState Pos) (hinv : Inv st)
-    (p s : List (Line Pos)) (hp : p ≠ []) (hs : s ≠ []) (mi : Int) (r : α) (start stop : Option Int)
+    (p s : List (Line Pos)) (mi : Int) (r : α) (start stop : Option Int)
     (hcut : ∀ lo hi, commonWindow p s mi start stop = some (lo, hi) →
       CutOK tn (dropNan (flatten (selectLines p lo hi))) (dropNan (flatten (selectLines s lo hi)))) :
     ∃ st' out, collocate T shuf tn st p s mi r start stop = (st', .ok out) ∧ Inv st' ∧
@@ -60,7 +60,7 @@ theorem C04_pairs_spec (dist : Pos → Pos → α) (hsym : ∀ a b, dist a b = d
       (out = none ↔ ∀ i j iv d, ¬ Collocated dist r mi start stop p s i j iv d) ∧
       (((flatten p).map (·.id)).Nodup → ((flatten s).map (·.id)).Nodup →
         ((outPairs out).map (·.1)).Nodup) :=
-  collocate_spec dist hsym T hT shuf hshuf tn st hinv p s hp hs mi r start stop hcut
+  collocate_spec dist hsym T hT shuf hshuf tn st hinv p s mi r start stop hcut
 
 theorem ivOf_comm (t1 t2 : Int) : ivOf t1 t2 = ivOf t2 t1 := by
   unfold ivOf
@@ -84,7 +84,7 @@ theorem C04_swap_transpose (dist : Pos → Pos → α) (hsym : ∀ a b, dist a b
     (T T' : TreeFn Pos α) (hT : TreeOK dist T) (hT' : TreeOK dist T')
     (shuf shuf' : Nat → List Pos → List Nat) (hshuf : ValidShuf shuf) (hshuf' : ValidShuf shuf')
     (tn tn' : Tuning) (st st' : SState Pos) (hinv : Inv st) (hinv' : Inv st')
-    (p s : List (Line Pos)) (hp : p ≠ []) (hs : s ≠ []) (mi : Int) (r : α) (start stop : Option Int)
+    (p s : List (Line Pos)) (mi : Int) (r : α) (start stop : Option Int)
     (hcut : ∀ lo hi, commonWindow p s mi start stop = some (lo, hi) →
       CutOK tn (dropNan (flatten (selectLines p lo hi))) (dropNan (flatten (selectLines s lo hi))))
     (hcut' : ∀ lo hi, commonWindow s p mi start stop = some (lo, hi) →
@@ -94,9 +94,9 @@ theorem C04_swap_transpose (dist : Pos → Pos → α) (hsym : ∀ a b, dist a b
       (∀ i j iv d, ((i, j), iv, d) ∈ outPairs out ↔ ((j, i), iv, d) ∈ outPairs out') ∧
       (out = none ↔ out' = none) := by
   obtain ⟨s1, out, e1, _, m1, n1, _⟩ :=
-    collocate_spec dist hsym T hT shuf hshuf tn st hinv p s hp hs mi r start stop hcut
+    collocate_spec dist hsym T hT shuf hshuf tn st hinv p s mi r start stop hcut
   obtain ⟨s2, out', e2, _, m2, n2, _⟩ :=
-    collocate_spec dist hsym T' hT' shuf' hshuf' tn' st' hinv' s p hs hp mi r start stop hcut'
+    collocate_spec dist hsym T' hT' shuf' hshuf' tn' st' hinv' s p mi r start stop hcut'
   refine ⟨s1, out, s2, out', e1, e2, ?_, ?_⟩
   · intro i j iv d
     rw [m1, m2, collocated_swap dist hsym]
@@ -113,7 +113,7 @@ theorem C04_tuning_invariant (dist : Pos → Pos → α) (hsym : ∀ a b, dist a
     (T T' : TreeFn Pos α) (hT : TreeOK dist T) (hT' : TreeOK dist T')
     (shuf shuf' : Nat → List Pos → List Nat) (hshuf : ValidShuf shuf) (hshuf' : ValidShuf shuf')
     (tn tn' : Tuning) (st st' : SState Pos) (hinv : Inv st) (hinv' : Inv st')
-    (p s : List (Line Pos)) (hp : p ≠ []) (hs : s ≠ []) (mi : Int) (r : α) (start stop : Option Int)
+    (p s : List (Line Pos)) (mi : Int) (r : α) (start stop : Option Int)
     (hcut : ∀ lo hi, commonWindow p s mi start stop = some (lo, hi) →
       CutOK tn (dropNan (flatten (selectLines p lo hi))) (dropNan (flatten (selectLines s lo hi))))
     (hcut' : ∀ lo hi, commonWindow p s mi start stop = some (lo, hi) →
@@ -122,9 +122,9 @@ theorem C04_tuning_invariant (dist : Pos → Pos → α) (hsym : ∀ a b, dist a
       collocate T' shuf' tn' st' p s mi r start stop = (s2, .ok out') ∧
       (∀ x, x ∈ outPairs out ↔ x ∈ outPairs out') ∧ (out = none ↔ out' = none) := by
   obtain ⟨s1, out, e1, _, m1, n1, _⟩ :=
-    collocate_spec dist hsym T hT shuf hshuf tn st hinv p s hp hs mi r start stop hcut
+    collocate_spec dist hsym T hT shuf hshuf tn st hinv p s mi r start stop hcut
   obtain ⟨s2, out', e2, _, m2, n2, _⟩ :=
-    collocate_spec dist hsym T' hT' shuf' hshuf' tn' st' hinv' p s hp hs mi r start stop hcut'
+    collocate_spec dist hsym T' hT' shuf' hshuf' tn' st' hinv' p s mi r start stop hcut'
   refine ⟨s1, out, s2, out', e1, e2, ?_, by rw [n1, n2]⟩
   rintro ⟨⟨i, j⟩, iv, d⟩
   rw [m1, m2]
@@ -137,7 +137,7 @@ theorem C04_history_independent (dist : Pos → Pos → α) (hsym : ∀ a b, dis
     (T : TreeFn Pos α) (hT : TreeOK dist T) (shuf : Nat → List Pos → List Nat)
     (hshuf : ValidShuf shuf)
     (history : List (Tuning × List (Line Pos) × List (Line Pos) × Int × α × Option Int × Option Int))
-    (tn : Tuning) (p s : List (Line Pos)) (hp : p ≠ []) (hs : s ≠ []) (mi : Int) (r : α)
+    (tn : Tuning) (p s : List (Line Pos)) (mi : Int) (r : α)
     (start stop : Option Int)
     (hcut : ∀ lo hi, commonWindow p s mi start stop = some (lo, hi) →
       CutOK tn (dropNan (flatten (selectLines p lo hi))) (dropNan (flatten (selectLines s lo hi)))) :
@@ -149,7 +149,7 @@ theorem C04_history_independent (dist : Pos → Pos → α) (hsym : ∀ a b, dis
   have hinv := runHistory_inv T shuf hshuf ({} : SState Pos) inv_init history
   refine ⟨hinv, ?_⟩
   exact C04_tuning_invariant dist hsym T T hT hT shuf shuf hshuf hshuf tn tn _ _ hinv inv_init
-    p s hp hs mi r start stop hcut hcut
+    p s mi r start stop hcut hcut
 
 theorem ivOf_spec (t1 t2 : Int) :
     0 ≤ ivOf t1 t2 ∧ ivOf t1 t2 * 1000000000 ≤ |t1 - t2| ∧ |t1 - t2| < (ivOf t1 t2 + 1) * 1000000000 := by
@@ -164,7 +164,7 @@ untruncated `|Δt|`) and the distance of exactly that pair of points, in km (`di
 theorem C04_interval_distance_values (dist : Pos → Pos → α) (hsym : ∀ a b, dist a b = dist b a)
     (T : TreeFn Pos α) (hT : TreeOK dist T) (shuf : Nat → List Pos → List Nat)
     (hshuf : ValidShuf shuf) (tn : Tuning) (st : SState Pos) (hinv : Inv st)
-    (p s : List (Line Pos)) (hp : p ≠ []) (hs : s ≠ []) (mi : Int) (r : α) (start stop : Option Int)
+    (p s : List (Line Pos)) (mi : Int) (r : α) (start stop : Option Int)
     (hcut : ∀ lo hi, commonWindow p s mi start stop = some (lo, hi) →
       CutOK tn (dropNan (flatten (selectLines p lo hi))) (dropNan (flatten (selectLines s lo hi)))) :
     ∃ st' out, collocate T shuf tn st p s mi r start stop = (st', .ok out) ∧
@@ -173,7 +173,7 @@ theorem C04_interval_distance_values (dist : Pos → Pos → α) (hsym : ∀ a b
           0 ≤ iv ∧ iv * 1000000000 ≤ |x.time - y.time| ∧ |x.time - y.time| < (iv + 1) * 1000000000 ∧
           |x.time - y.time| < mi ∧ d = dist px py / ((1000 : Nat) : α) := by
   obtain ⟨st', out, e1, _, m1, _, _⟩ :=
-    collocate_spec dist hsym T hT shuf hshuf tn st hinv p s hp hs mi r start stop hcut
+    collocate_spec dist hsym T hT shuf hshuf tn st hinv p s mi r start stop hcut
   refine ⟨st', out, e1, ?_⟩
   intro i j iv d hmem
   obtain ⟨x, hx, y, hy, h1, h2, px, py, h3, h4, _, h6, _, _, rfl, rfl⟩ := (m1 i j iv d).mp hmem
